@@ -586,7 +586,8 @@ def judge_run(rec, info, o, fe):
     # workers=-1 nothing is evaluated in the parent and the lens keeps its start values
     alt, flags = None, ()
     kp = poisoned_from(vs_list, o)
-    if last is not None and o['returned_x_evaluated']:
+    # (after an abnormal L-BFGS-B line search scipy may hand back an x it never evaluated, with the fun of its last trial)
+    if last is not None and (o['returned_x_evaluated'] or (not o['success'] and o['returned_fun_is_logged_value'])):
         alt, flags = np.asarray(last[0], dtype=float), (MECH_LAST,)
         if kp is not None:
             alt = alt.copy()
@@ -597,7 +598,7 @@ def judge_run(rec, info, o, fe):
     elif last is None and fe == 'de-mp':
         alt, flags = x0, (MECH_MP,)
     # a thickness is read back as the difference of two absolutely stored vertex positions: rounding 16 eps max|z|
-    xs = xscale(x)
+    xs = np.maximum(xscale(x), np.where(np.isfinite(got), np.abs(got), 0.0))      # relative comparison
     thk = np.array([vs['kind'] == 'thickness' for vs in vs_list])
     xs = xs + np.where(thk, 16 * np.finfo(float).eps * float(o.get('zmax_seen', 0.0)) / 1e-12, 0.0)
     rec.close('lens-at-returned-x', got, x, 1e-12, key='lens-at-returned-x:unexplained', scale=xs, alt=alt, flags=flags,
